@@ -52,7 +52,7 @@ def check(run):
     quick = run.tier == "quick"
     zkh = run.harness()
     seqs, stores = [], []
-    N = 150 if quick else 3000
+    N = 600 if quick else 6000
     for k in range(N):
         n_inputs = rng.randint(1, 8)
         n_nodes = rng.choice([1, 3, 8, 20, 20, 60] + ([] if quick else [150, 400]))
